@@ -122,7 +122,16 @@ Definition ref_ok (m : model) (f : field) : bool :=
   | _ => true
   end.
 
+(* the type number of a data field does not reappear in any later field (Go: duplicate case labels do not compile;
+   stated in this recursive form because that is how the proofs use it) *)
+Fixpoint types_ok (fs : list field) : bool :=
+  match fs with
+  | [] => true
+  | f :: r => (if kind_is_data (fk f) then negb (existsb (fun g => ftyp g =? ftyp f) r) else true) && types_ok r
+  end.
+
 Definition model_wf (nm : nat) (m : model) : bool :=
-  forallb (field_wf nm (length (flds m))) (flds m) && nodup_N (data_types m) && forallb (ref_ok m) (flds m).
+  forallb (field_wf nm (length (flds m))) (flds m) && nodup_N (data_types m) && types_ok (flds m) &&
+  forallb (ref_ok m) (flds m).
 
 Definition schema_wf (S : schema) : bool := forallb (model_wf (length S)) S.
